@@ -1,3 +1,31 @@
-(* Property C02 — statements only (being filled in). *)
+(* Property C02 — statements only.  Each theorem is closed by [exact] of a lemma proved in
+   the C02/ files; Print Assumptions is evaluated by ./check on every run.
+
+   Reading guide.  [check] is the Gallina model of the gate as it is in /repo
+   (tsk_treeseq_init -> tsk_table_collection_check_integrity(TSK_CHECK_TREES));
+   [check_repaired] is the same code with the two one-condition repairs of findings F1/F14;
+   [ValidTS] (C02/Spec.v) is the declarative data-model predicate; [WF] is the reachable-state
+   invariant "columns of a table have equal length, ragged offsets well formed, index arrays
+   as long as the edge table". *)
 From Coq Require Import List ZArith.
-From TskVerif Require Import Base.Common C02.Fl C02.Model.
+From TskVerif Require Import Base.Common C02.Fl C02.Model C02.Spec C02.Sound C02.Refuted.
+
+(* (b) soundness of the gate as it is: every clause of ValidTS except the two refuted below.
+   PARTIAL with respect to the full statement  check t = Ok n -> ValidTS t : missing are
+   "removal order is a permutation" (F1) and "sequence_length is finite" (F14, here a hypothesis). *)
+Theorem check_sound_partial : forall t n z,
+  WF t -> seqlen t = Fin z -> check t = Ok n -> ValidTS_but_F1_F14 t.
+Proof. exact check_sound_partial_lemma. Qed.
+
+(* (b') the full soundness statement holds for the repaired gate *)
+Theorem check_repaired_sound : forall t n, WF t -> check_repaired t = Ok n -> ValidTS t.
+Proof. exact check_repaired_sound_lemma. Qed.
+
+(* (d) REFUTED on the faithful model: the full soundness statement fails for the code as it is *)
+Theorem check_sound_index_refuted :
+  exists t, WF t /\ SeqlenOK t /\ check_integrity faithful opts_trees t = Ok 1 /\ ~ IndexOK t.
+Proof. exact f1_refuted. Qed.
+
+Theorem check_sound_seqlen_refuted :
+  exists t n, WF t /\ check_integrity faithful opts_trees t = Ok n /\ ~ SeqlenOK t.
+Proof. exact f14_refuted. Qed.
